@@ -1064,8 +1064,8 @@ func (store *KeyStore) destroyKeyWithFilename(filename string) error {
 
 // destroySymmetricKeyWithFilename removes symmetric key with given filename.
 func (store *KeyStore) destroySymmetricKeyWithFilename(filename string) error {
-	// Purge key data from cache too.
-	store.cache.Add(filename, nil)
+	// Purge key data from cache too: symmetric keys are cached under the name of their file.
+	store.cache.Add(getSymmetricKeyName(filename), nil)
 
 	// Remove key files. It's okay if they are already removed (or never existed).
 	// Keystore v1 does not differentiate between 'destroying' and 'removing' keys
@@ -1198,7 +1198,8 @@ func (store *KeyStore) generateAndSaveSymmetricKey(filename string, keyContext k
 // GetSymmetricKey return symmetric key with specific identifier
 func (store *KeyStore) readEncryptedKey(filename string, keyContext keystore.KeyContext) ([]byte, error) {
 	encryptedSymKey, ok := store.Get(filename)
-	if !ok {
+	// an entry purged from the cache (nil) is not a key: look at the key file
+	if !ok || encryptedSymKey == nil {
 		return store.loadKeyAndCache(filename, keyContext, func() ([]byte, error) {
 			return store.ReadKeyFile(store.GetPrivateKeyFilePath(filename))
 		})
